@@ -927,15 +927,28 @@ void mmd_export_token_latex(DString * out, const char * source, token * t, scrat
 			break;
 
 		case BLOCK_TOC:
+			// Locate the TOC token -- a list marker precedes its line when the TOC opens a list item
+			temp_token = t->child;
+
+			if (temp_token && (temp_token->type != LINE_TOC)) {
+				temp_token = temp_token->next;
+			}
+
+			temp_token = temp_token ? temp_token->child : NULL;
+
+			if (temp_token == NULL) {
+				break;
+			}
+
 			pad(out, 2, scratch);
 
 			// Define range
-			if (t->child->child->type == TOC) {
+			if (temp_token->type == TOC) {
 			} else {
-				temp_short = source[t->start + 6] - '0';
+				temp_short = source[temp_token->start + 6] - '0';
 
-				if (t->child->child->type == TOC_RANGE) {
-					temp_short2 = source[t->start + 8] - '0';
+				if (temp_token->type == TOC_RANGE) {
+					temp_short2 = source[temp_token->start + 8] - '0';
 				} else {
 					temp_short2 = temp_short;
 				}
